@@ -132,7 +132,62 @@ func (s *scanner) find(text []byte) string {
 			return hit + " (after undoing text escapes)"
 		}
 	}
+	for _, run := range numberRuns(text) {
+		if i, ok := slide(run, window, s.raw); ok {
+			return fmt.Sprintf("bytes %x written as a list of numbers (as fmt prints a byte slice), element %d of a run of %d", run[i:i+window], i, len(run))
+		}
+	}
 	return ""
+}
+
+// numberRuns decodes every maximal run of at least `window` numbers in 0..255 (decimal, or hex with
+// a 0x prefix) that are separated only by spaces and commas - the way fmt's %v ("[1 2 3]") and %#v
+// ("[]byte{0x1, 0x2}") print a byte slice - into the bytes they stand for.
+func numberRuns(text []byte) [][]byte {
+	var runs [][]byte
+	var cur []byte
+	flush := func() {
+		if len(cur) >= window {
+			runs = append(runs, cur)
+		}
+		cur = nil
+	}
+	i := 0
+	for i < len(text) {
+		b := text[i]
+		switch {
+		case b == ' ' || b == ',':
+			i++
+		case b >= '0' && b <= '9':
+			j, v, base := i, 0, 10
+			if b == '0' && j+1 < len(text) && (text[j+1] == 'x' || text[j+1] == 'X') {
+				j, base = j+2, 16
+			}
+			n := 0
+			for j < len(text) && n < 4 {
+				d := strings.IndexByte("0123456789abcdef", lower(text[j]))
+				if d < 0 || d >= base {
+					break
+				}
+				v, j, n = v*base+d, j+1, n+1
+			}
+			// a number is a list element only if it ends at a separator or bracket
+			if n == 0 || v > 255 || (j < len(text) && text[j] != ' ' && text[j] != ',' && text[j] != ']' && text[j] != '}') {
+				flush()
+				for j < len(text) && text[j] != ' ' && text[j] != ',' {
+					j++
+				}
+			} else {
+				cur = append(cur, byte(v))
+			}
+			i = j
+		default:
+			flush()
+			i++
+		}
+	}
+	flush()
+	return runs
 }
 
 // unescape undoes C / prototext / JSON style escapes leniently; nil when the text has none.
@@ -219,6 +274,8 @@ func selfCheckScanner() error {
 			"base64raw":  []byte(base64.RawStdEncoding.EncodeToString(stream)),
 			"text":       []byte(fmt.Sprintf("value: %q", stream)),
 			"octal-text": []byte(octalEscape(stream)),
+			"fmt-%v":     []byte(fmt.Sprintf("key &{{%v} 7 [1 2 3]}", stream)),
+			"fmt-%#v":    []byte(fmt.Sprintf("%#v", stream)),
 		}
 		for name, text := range plants {
 			if sc.find(text) == "" {
@@ -227,7 +284,7 @@ func selfCheckScanner() error {
 		}
 	}
 	clean := newScanner([][]byte{secret}, nil)
-	for _, text := range [][]byte{other, []byte(hex.EncodeToString(other)), []byte(base64.StdEncoding.EncodeToString(other))} {
+	for _, text := range [][]byte{other, []byte(hex.EncodeToString(other)), []byte(base64.StdEncoding.EncodeToString(other)), []byte(fmt.Sprintf("%v %#v", other, other))} {
 		if hit := clean.find(text); hit != "" {
 			return fmt.Errorf("scanner self check: false hit %s", hit)
 		}
